@@ -187,7 +187,7 @@ pub fn one_case(sys: usize, sh: &Shape, rng: &mut Rng, id: String) -> Case {
     tx.send(SENTINEL, vec![], vec![]).unwrap();
     let mut got = Vec::new();
     loop {
-        match grx.recv_timeout(std::time::Duration::from_secs(20)) {
+        match grx.recv_timeout(std::time::Duration::from_secs(6)) {
             Ok(Got::Msg(d, c, s, t)) => {
                 let fin = d == SENTINEL;
                 got.push(Got::Msg(d, c, s, t));
@@ -197,12 +197,14 @@ pub fn one_case(sys: usize, sh: &Shape, rng: &mut Rng, id: String) -> Case {
             },
             Ok(e) => got.push(e),
             Err(_) => {
-                case.fail("receiver did not obtain the follow-on message within 20 s".into());
+                case.fail("receiver did not obtain the follow-on message within 6 s".into());
                 break;
             },
         }
     }
-    let _ = rh.join();
+    if case.oracle.is_none() {
+        let _ = rh.join();
+    }
     let (dfirst, dfol) = delivered(&tr);
     let mut msgs = got.into_iter();
     if res.is_ok() {
@@ -364,6 +366,26 @@ pub fn run(args: &[String]) {
                 let (nch, nshm) = if n % 7 == 3 { (1, 1) } else { (0, 0) };
                 let sh = Shape { len, nch, nshm, faults: vec![] };
                 one_case(sys, &sh, &mut rng, format!("c01-{}-{}", sys, n)).emit();
+                n += 1;
+            }
+        },
+        "c15" => {
+            let counts: Vec<usize> = if thorough { (0..=300).collect() } else { vec![0, 1, 2, 31, 62, 63, 64, 65, 66, 100, 252, 253, 254, 300] };
+            let lens = [0usize, 10, max, max + 1, 3 * max];
+            for &cnt in &counts {
+                for &len in &lens {
+                    for mix in 0..2 {
+                        let nshm = if mix == 0 { 0 } else { cnt / 3 };
+                        let sh = Shape { len, nch: cnt - nshm, nshm, faults: vec![] };
+                        one_case(sys, &sh, &mut rng, format!("c15-{}-{}", sys, n)).emit();
+                        n += 1;
+                    }
+                }
+            }
+            // ENOBUFS on the single-packet attempt forces fragmentation: the dedicated socket must still fit
+            for &cnt in &[62usize, 63, 64] {
+                let sh = Shape { len: 3000.min(max), nch: cnt, nshm: 0, faults: vec![1] };
+                one_case(sys, &sh, &mut rng, format!("c15-{}-{}", sys, n)).emit();
                 n += 1;
             }
         },
